@@ -144,7 +144,129 @@ func coreFuncs(p *Prog) []*FuncInfo {
 	return res
 }
 
+// entryHeldFor: locks a package-local helper may assume on entry = intersection of the locksets held at all of its
+// call sites (translated from the caller's access paths to the helper's receiver/parameter names). Exported
+// functions and functions without a caller in the package start with the empty lockset.
 func entryHeldFor(p *Prog, fi *FuncInfo) []Held {
+	return inferEntryHeld(p, fi, 0)
+}
+
+func inferEntryHeld(p *Prog, fi *FuncInfo, depth int) []Held {
+	if p.entryHeld == nil {
+		p.entryHeld = map[string][]Held{}
+	}
+	if h, ok := p.entryHeld[fi.Key]; ok {
+		return h
+	}
+	p.entryHeld[fi.Key] = nil // recursion guard
+	if fi.Obj.Exported() || depth > 3 {
+		return nil
+	}
+	info := fi.Pkg.TypesInfo
+	recvName := ""
+	if fi.Decl.Recv != nil && len(fi.Decl.Recv.List) == 1 && len(fi.Decl.Recv.List[0].Names) == 1 {
+		recvName = fi.Decl.Recv.List[0].Names[0].Name
+	}
+	var params []string
+	for _, fld := range fi.Decl.Type.Params.List {
+		for _, nm := range fld.Names {
+			params = append(params, nm.Name)
+		}
+		if len(fld.Names) == 0 {
+			params = append(params, "_")
+		}
+	}
+	_ = info
+	var inter []Held
+	sites := 0
+	for _, k := range sortedFuncKeys(p) {
+		caller := p.Funcs[k]
+		if caller.Decl.Body == nil || caller.Pkg != fi.Pkg || caller == fi {
+			continue
+		}
+		if _, exempt := guardedExempt[caller.Key]; exempt {
+			continue
+		}
+		calls := false
+		ast.Inspect(caller.Decl.Body, func(x ast.Node) bool {
+			if c, ok := x.(*ast.CallExpr); ok && p.callIs(caller.Pkg, c, fi.Key) {
+				calls = true
+			}
+			return !calls
+		})
+		if !calls {
+			continue
+		}
+		lr := p.LockFlow(caller, inferEntryHeld(p, caller, depth+1))
+		seen := map[*ast.CallExpr]bool{}
+		for _, ev := range lr.Events {
+			if ev.Kind != "call" || seen[ev.Call] {
+				continue
+			}
+			isCallee := false
+			for _, ck := range ev.Keys {
+				if ck == fi.Key {
+					isCallee = true
+				}
+			}
+			if !isCallee {
+				continue
+			}
+			seen[ev.Call] = true
+			hs, _ := mustHeldAny(lr, ev.Call)
+			// mapping caller path -> callee name
+			mapping := map[string]string{}
+			if sel, ok := ast.Unparen(ev.Call.Fun).(*ast.SelectorExpr); ok && recvName != "" {
+				mapping[exprPath(sel.X)] = recvName
+			}
+			for i, a := range ev.Call.Args {
+				if i < len(params) && params[i] != "_" {
+					mapping[exprPath(a)] = params[i]
+				}
+			}
+			var tr []Held
+			for _, h := range hs {
+				for from, to := range mapping {
+					if h.Path == from || strings.HasPrefix(h.Path, from+".") {
+						tr = append(tr, Held{Path: to + strings.TrimPrefix(h.Path, from), Class: h.Class, Mode: h.Mode})
+					}
+				}
+			}
+			if sites == 0 {
+				inter = tr
+			} else {
+				var keep []Held
+				for _, h := range inter {
+					for _, g := range tr {
+						if g.Path == h.Path {
+							if g.Mode == "R" {
+								h.Mode = "R"
+							}
+							keep = append(keep, h)
+							break
+						}
+					}
+				}
+				inter = keep
+			}
+			sites++
+		}
+	}
+	// dedupe
+	seenP := map[string]bool{}
+	var res []Held
+	for _, h := range inter {
+		if !seenP[h.Path] {
+			seenP[h.Path] = true
+			res = append(res, h)
+		}
+	}
+	sort.Slice(res, func(i, j int) bool { return res[i].Path < res[j].Path })
+	p.entryHeld[fi.Key] = res
+	return res
+}
+
+func entryHeldForOld(p *Prog, fi *FuncInfo) []Held {
 	if fi.Key == kStoreToTx {
 		// requires W(tx) and W(all-store): enforced at every call site (guarded op storeToTx)
 		info := fi.Pkg.TypesInfo
@@ -262,6 +384,57 @@ func propC06(p *Prog, r *Report) {
 	c06StoreRegion(p, r)
 	c06Balanced(p, r)
 	c06ClassGraph(p, r)
+	r.Rule("C06.e", "commit is atomic for readers of the all-store: in UpdateTx the committing transaction's versions are never unlinked from the all-store before the re-stamped versions are published, unless both happen inside one uninterrupted all-store write region (otherwise a ReadUncommitted reader finds the key in neither place)")
+	c06CommitMoveAtomic(p, r)
+}
+
+// c06CommitMoveAtomic (seeded C06-A).
+func c06CommitMoveAtomic(p *Prog, r *Report) {
+	fi := p.Func(kUpdateTx)
+	if fi == nil {
+		r.Undecided("C06.e", kUpdateTx, "", "core.UpdateTx not found")
+		return
+	}
+	f := p.FlatOf(fi)
+	all := allStorePath(fi)
+	// unlink sites executed in the body (range loops included; deferred closures run after the publication)
+	unl := f.Match(func(n *GNode) bool {
+		if _, isDefer := n.Ast.(*ast.DeferStmt); isDefer {
+			return false
+		}
+		for _, c := range callsIn(n.Ast, false) {
+			if p.callIs(fi.Pkg, c, kNodeDeleteLink) {
+				return true
+			}
+		}
+		return false
+	})
+	pubs := f.CallNodes(kStoreToTx)
+	rel := f.Match(func(n *GNode) bool {
+		if _, isDefer := n.Ast.(*ast.DeferStmt); isDefer {
+			return false
+		}
+		for _, c := range callsIn(n.Ast, false) {
+			if op := p.lockOpOf(fi.Pkg, c); op != nil && !op.Acquire && op.Path == all {
+				return true
+			}
+		}
+		return false
+	})
+	bad := ""
+	for _, u := range unl {
+		if !f.ReachableAfter(u, setOf(pubs), nil) {
+			continue // unlink after the publication (or on paths that never publish)
+		}
+		// unlink precedes a publication: no release of the all-store lock in between
+		for _, x := range rel {
+			if f.ReachableAfter(u, setOf([]int{x}), nil) && f.ReachableAfter(x, setOf(pubs), nil) {
+				bad = p.pos(f.Nodes[x].Ast)
+			}
+		}
+	}
+	r.Check(bad == "" && len(pubs) > 0, "C06.e", kUpdateTx+"#unlink-publish-atomic", p.pos(fi.Decl), "no gap between unlinking the transaction's versions and publishing the committed ones",
+		"the committing transaction's versions are unlinked from the all-store, the all-store lock is released (at "+bad+") and only later the committed versions are published: in between a ReadUncommitted reader sees neither and reports an acknowledged key as not found")
 }
 
 func c06StoreRegion(p *Prog, r *Report) {
@@ -691,4 +864,37 @@ func wgField(info *types.Info, e ast.Expr) *types.Var {
 		}
 	}
 	return nil
+}
+
+// localClosure returns the functions of the same package reachable from the roots (inclusive).
+func localClosure(p *Prog, roots ...string) []*FuncInfo {
+	cg := p.CallGraph()
+	seen := map[string]bool{}
+	var res []*FuncInfo
+	var work []string
+	for _, r := range roots {
+		work = append(work, r)
+	}
+	var pkg string
+	if fi := p.Funcs[roots[0]]; fi != nil {
+		pkg = fi.Pkg.PkgPath
+	}
+	for len(work) > 0 {
+		k := work[len(work)-1]
+		work = work[:len(work)-1]
+		if seen[k] {
+			continue
+		}
+		seen[k] = true
+		fi := p.Funcs[k]
+		if fi == nil || fi.Pkg.PkgPath != pkg || fi.Decl.Body == nil {
+			continue
+		}
+		res = append(res, fi)
+		for _, o := range cg.Out[k] {
+			work = append(work, o)
+		}
+	}
+	sort.Slice(res, func(i, j int) bool { return res[i].Key < res[j].Key })
+	return res
 }
